@@ -164,6 +164,9 @@ func checkC06(p *Program, r *Reporter) {
 	}
 	e.classA("E3-A", fns)
 	periodRangeRule(p, r, sp)
+	if rs := p.mustFunc(r, pkgApp, "reduceS"); rs != nil {
+		periodCutRule(p, r, rs)
+	}
 	// (d) start numbers
 	r.Rule("E4-STARTNR", "per-period startNumber depends on the configured start number", 2)
 	for _, b := range sp.Blocks {
@@ -221,6 +224,23 @@ func periodRangeRule(p *Program, r *Reporter, sp *ssa.Function) {
 						f, ok := loadedField(x)
 						return ok && allowed[f]
 					})
+					// the bounds are computed with the very period duration that gives Period@start its value
+					usesDur := false
+					seenV := map[ssa.Value]bool{}
+					sliceVisit(p, cd.V, true, func(x ssa.Value) {
+						if seenV[x] {
+							return
+						}
+						seenV[x] = true
+						if q, ok := x.(*ssa.BinOp); ok && q.Op == token.QUO && q.Parent() == sp {
+							if k, isC := constInt(q.X); isC && k == 3600 {
+								usesDur = true
+							}
+						}
+					})
+					r.Decide(usesDur, "E4-PERIODRANGE", shortFn(fn), "period-loop-bound:duration", p.pos(instrPos(cd.At.Instrs[len(cd.At.Instrs)-1])),
+						"the period numbers are computed from the whole-second period duration 3600/N that also gives Period@start",
+						"the numbers of the first and last period are not computed from the period duration (3600/N, whole seconds) that Period@start, ids and offsets use: for N that does not divide 3600 the generated periods drift away from the window", nil)
 					var bad, have []string
 					for f := range leaves {
 						if allowed[f] {
